@@ -1,6 +1,6 @@
 """Cold-start concurrency probe (run as a script in a FRESH interpreter by pmv/replay.py).
 
-usage: python -m pmv.coldstart <calls.pkl> <focus index> <nthreads>
+usage: python -m pmv.coldstart <calls.pkl> <focus index> <nthreads> [strict|ambient]
 
 calls.pkl holds [(module, attribute, args, kwargs, repr of the result when called alone)].  The library is imported, N
 threads are released on a barrier and make their very first calls at the same moment - first the recorded calls of one
@@ -14,6 +14,10 @@ import sys
 import threading
 
 
+AMBIENT = dict(threshold=5, edgeitems=1, linewidth=12, precision=2, sign="+", floatmode="fixed", suppress=True)
+DEFAULTS = dict(threshold=1000, edgeitems=3, linewidth=75, precision=8, sign="-", floatmode="maxprec", suppress=False)
+
+
 def main():
     path, focus, nthreads = sys.argv[1], int(sys.argv[2]), int(sys.argv[3])
     if len(sys.argv) > 4 and sys.argv[4] == "strict":
@@ -23,6 +27,15 @@ def main():
         import numpy as np
         np.seterr(all="raise")
         warnings.simplefilter("error", RuntimeWarning)
+    ambient = len(sys.argv) > 4 and sys.argv[4] == "ambient"
+    if ambient:
+        # the host program configured its own output formatting / decimal arithmetic BEFORE it imported the library: a table
+        # built at import time (or on first use) through str() / repr() of numpy values freezes whatever was in force then
+        import decimal
+        import numpy as np
+        np.set_printoptions(**AMBIENT)
+        decimal.DefaultContext.prec = 5
+        decimal.getcontext().prec = 5
     raw = pickle.load(open(path, "rb"))
     calls = []
     for mod, attr, a, k, want in raw:
@@ -43,13 +56,19 @@ def main():
 
     def work(t):
         seq = first[t % len(first):] + first[:t % len(first)] + rest[t::nthreads][:200]
+        if ambient:
+            np.set_printoptions(**AMBIENT)   # numpy >= 2 keeps the options per context: a new thread starts from the defaults
         barrier.wait()
         for fn, a, k, want, nm in seq:
             try:
                 r = ("ok", fn(*a, **k))
             except BaseException as e:  # noqa
                 r = ("exc", type(e).__name__, str(e)[:200])
-            got = repr(r)
+            if ambient:
+                with np.printoptions(**DEFAULTS):   # the comparison itself is made under the options the parent recorded with
+                    got = repr(r)
+            else:
+                got = repr(r)
             if got != want:
                 bad.append({"function": nm, "args": repr(a)[:200], "alone": want[:200], "cold_concurrent": got[:200]})
                 return
